@@ -6,6 +6,8 @@ import (
 	"runtime/pprof"
 	"strings"
 
+	"github.com/anyproto/any-sync/commonspace/object/acl/list"
+
 	"verifharness/internal/corr"
 )
 
@@ -23,61 +25,168 @@ func oneHistory(r *corr.Run, id, nAcc, steps int) {
 	if err := h.start(); err != nil {
 		r.Fatal("cannot start a history: " + err.Error())
 	}
+	if err := h.openTree(0); err != nil {
+		r.Fatal("cannot create the tree storages: " + err.Error())
+	}
 	h.oracle()
 	h.modelStep()
-	for s := 0; s < steps && r.TimeLeft(); s++ {
-		c := h.choose(h.candidates())
-		op, err := c.f()
-		if c.kind == "perm-grant-from-none" {
-			// probe (finding F-keys-permchange-readmit, fixed): a bare permission change must not re-admit an account
-			// that holds no permission; both the builder's preflight and the acceptor have to refuse it
-			if err == nil && op != nil && op.rec != nil {
-				r.Count("probe.grant-from-none.built")
-				h.sig = "F-keys-permchange-readmit"
-				if aerr, alive := h.commit(op); aerr != nil {
-					r.Count("probe.grant-from-none.rejected-by-acceptor")
-					h.sig = ""
-				} else if !alive {
-					break
-				} else {
-					h.modelStep()
-				}
-			} else {
-				r.Count("probe.grant-from-none.rejected-by-builder")
+	cycleAt := -1
+	if r.Chance(60) {
+		cycleAt = 2 + r.Intn(6)
+	}
+	for s := 0; s < steps && r.TimeLeft() && r.Issues() == 0; s++ {
+		if s == cycleAt || r.Chance(6) {
+			if !h.readmitCycle() {
+				break
 			}
 			continue
 		}
-		if err != nil || op == nil || op.rec == nil {
-			r.Count("op.build-failed." + c.kind)
-			h.violate("keys.honest-op-refused", fmt.Sprintf("the real builder refused %s after record %d: %v", c.kind, len(h.raw)-1, err))
+		c := h.choose(h.candidates())
+		op, err := c.f()
+		if !h.submit(c.kind, op, err) {
 			break
 		}
-		// before submitting an honest rotation, offer re-signed tamperings of it: all must be rejected
-		if op.newKey != nil && r.Chance(60) {
-			h.tamperRound(op)
-		}
-		aerr, alive := h.commit(op)
-		if aerr != nil {
-			r.Count("op.rejected." + c.kind)
-			h.violate("keys.honest-op-refused", fmt.Sprintf("the acceptor rejected %s (%s) after record %d: %v", c.kind, op.name, len(h.raw)-1, aerr))
-			break
-		}
-		r.Count("op." + c.kind)
-		if !alive {
-			break
-		}
-		h.modelStep()
-		if (op.newKey != nil && r.Chance(50)) || r.Chance(10) {
-			h.treeRound()
+		if op != nil && ((op.newKey != nil && r.Chance(50)) || r.Chance(15)) {
+			h.treeRound(roundOpts{writer: -1, live: -1})
 		}
 	}
-	h.treeRound()
+	if r.Issues() == 0 {
+		h.treeRound(roundOpts{writer: -1, live: -1, deliverAll: true})
+	}
 	r.Case(strings.Join(h.ops, "|"), len(h.gens) >= 2 && len(h.raw) >= 6)
 	r.CountN("records", len(h.raw))
 	r.CountN("generations", len(h.gens))
 	if len(h.raw) >= 10 {
 		r.Sample(map[string]any{"history": h.trace, "final": h.table()})
 	}
+}
+
+// submit offers one built operation; false = the history cannot go on.
+func (h *hist) submit(kind string, op *pendingOp, err error) bool {
+	r := h.r
+	if kind == "perm-grant-from-none" {
+		// probe (finding F-keys-permchange-readmit, fixed): a bare permission change must not re-admit an account
+		// that holds no permission; both the builder's preflight and the acceptor have to refuse it
+		if err == nil && op != nil && op.rec != nil {
+			r.Count("probe.grant-from-none.built")
+			h.sig = "F-keys-permchange-readmit"
+			if aerr, alive := h.commit(op); aerr != nil {
+				r.Count("probe.grant-from-none.rejected-by-acceptor")
+				h.sig = ""
+			} else if !alive {
+				return false
+			} else {
+				h.modelStep()
+			}
+		} else {
+			r.Count("probe.grant-from-none.rejected-by-builder")
+		}
+		return true
+	}
+	if err != nil || op == nil || op.rec == nil {
+		r.Count("op.build-failed." + kind)
+		h.violate("keys.honest-op-refused", fmt.Sprintf("the real builder refused %s after record %d: %v", kind, len(h.raw)-1, err))
+		return false
+	}
+	// before submitting an honest rotation, offer re-signed tamperings of it: all must be rejected
+	if op.newKey != nil && r.Chance(60) {
+		h.tamperRound(op)
+	}
+	aerr, alive := h.commit(op)
+	if aerr != nil {
+		r.Count("op.rejected." + kind)
+		h.violate("keys.honest-op-refused", fmt.Sprintf("the acceptor rejected %s (%s) after record %d: %v", kind, op.name, len(h.raw)-1, aerr))
+		return false
+	}
+	r.Count("op." + kind)
+	if !alive {
+		return false
+	}
+	h.modelStep()
+	return true
+}
+
+// readmitCycle is the directed scenario for the per-tree key cache: a member is removed (rotation), its
+// long-lived tree is touched while it is out (a change written under the new generation reaches it), it is
+// re-admitted under that same generation (direct add / open-invite join / request + accept: no rotation in
+// between), and then everybody must read everything through long-lived and fresh trees, the re-admitted member
+// included, and what the re-admitted member writes on its long-lived tree must be readable by all.
+func (h *hist) readmitCycle() bool {
+	r := h.r
+	mgr := h.owner()
+	rm := h.removable(mgr)
+	if len(rm) == 0 {
+		// nobody to remove yet: admit somebody first
+		nm := h.nonMembers(true)
+		if len(nm) == 0 {
+			return true
+		}
+		b := h.pick(nm)
+		op, err := h.opAdd(mgr, []int{b}, []list.AclPermissions{pWriter})
+		if !h.submit("add-new", op, err) {
+			return false
+		}
+		h.treeRound(roundOpts{writer: -1, live: -1, deliverAll: true})
+		rm = h.removable(mgr)
+		if len(rm) == 0 {
+			return true
+		}
+	}
+	b := h.pick(rm)
+	r.Count("scenario.readmit-cycle")
+	op, err := h.opRemove(mgr, []int{b})
+	if !h.submit("remove", op, err) {
+		return false
+	}
+	// touched while out: sometimes by a change under the new generation, sometimes only by a late change
+	if r.Chance(70) {
+		h.treeRound(roundOpts{writer: -1, live: -1, deliverTo: []int{b}})
+	} else {
+		h.deliver(h.tree.reps[b])
+	}
+	if r.Issues() > 0 {
+		return false
+	}
+	perm := pWriter
+	if r.Chance(30) {
+		perm = pReader
+	}
+	open, req := h.liveInvites(true), h.liveInvites(false)
+	_, dangling := h.pendRemove[b]
+	switch x := r.Intn(3); {
+	case x == 0 && len(open) > 0:
+		op, err = h.opInviteJoin(b, open[r.Intn(len(open))], pNone)
+		if !h.submit("invite-join-again", op, err) {
+			return false
+		}
+	case x == 1 && len(req) > 0 && !dangling:
+		op, err = h.opRequestJoin(b, req[r.Intn(len(req))])
+		if !h.submit("request-join", op, err) {
+			return false
+		}
+		if r.Chance(40) {
+			h.treeRound(roundOpts{writer: -1, live: -1, deliverTo: []int{b}})
+		}
+		op, err = h.opAccept(mgr, b, perm)
+		if !h.submit("accept", op, err) {
+			return false
+		}
+	default:
+		op, err = h.opAdd(mgr, []int{b}, []list.AclPermissions{perm})
+		if !h.submit("add-again", op, err) {
+			return false
+		}
+	}
+	if r.Issues() > 0 {
+		return false
+	}
+	// somebody else writes, everybody (b included) receives and reads
+	h.treeRound(roundOpts{writer: mgr, live: -1, deliverAll: true})
+	// the re-admitted member writes on its long-lived tree
+	if r.Issues() == 0 && h.perm[b].CanWrite() {
+		h.treeRound(roundOpts{writer: b, live: 1, deliverAll: true})
+	}
+	return r.Issues() == 0
 }
 
 func (h *hist) tamperRound(op *pendingOp) {
@@ -119,6 +228,32 @@ func (h *hist) modelStep() {
 	}
 	model := h.r.Ask(line)
 	h.r.Check("C05", "keys.table", append([]string{fmt.Sprintf("reset %d", h.n())}, h.ops...), model, impl)
+}
+
+// cacheCorr compares what a long-lived tree can decrypt, generation by generation ('?' where no delivered
+// content tells), with the model's per-tree key cache after the same touches.
+func (h *hist) cacheCorr(a int, impl string) {
+	rp := h.tree.reps[a]
+	if len(h.r.ModelCmd) == 0 {
+		return
+	}
+	q := fmt.Sprintf("peek %d", a)
+	if rp.touches > 0 {
+		q = fmt.Sprintf("touch %d", a) // the real tree ran readKeysFromAclState since the last report
+		h.ops = append(h.ops, q)
+	}
+	model := h.r.Ask(q)
+	rp.touches = 0
+	if strings.HasPrefix(model, "cache=") && len(model) == len("cache=")+len(impl) {
+		mb := []byte(model[len("cache="):])
+		for i := range mb {
+			if impl[i] == '?' {
+				mb[i] = '?'
+			}
+		}
+		model = "cache=" + string(mb)
+	}
+	h.r.Check("C05", "keys.tree-cache", append(append([]string{fmt.Sprintf("reset %d", h.n())}, h.ops...), q), model, "cache="+impl)
 }
 
 func Run(r *corr.Run) {
